@@ -88,6 +88,21 @@ pub fn run_one(seed: u64, profile: Profile, thorough: bool, mk: MkMonitors, stop
                     res.cov.note(&format!("fail:{}:{:#x}{}", kind, io.code, io.detail.as_deref().map(|d| format!(" {}", d.chars().take(60).collect::<String>())).unwrap_or_default()));
                 }
             }
+            if o.ok {
+                if let sim::HEvent::Tx { tx, tag, .. } = &ev {
+                    if tag.contains("saturate_tick_array") {
+                        res.cov.probe("saturating_lp_transactions_landed");
+                        for m in tx.ixs.iter().flat_map(|i| i.accounts.iter()) {
+                            if let Some(Ok(t)) = ledger.data(&m.pubkey).map(crate::decode::tick_array) {
+                                if t.ticks.iter().all(|x| x.initialized) {
+                                    res.cov.probe(if t.dynamic { "tick_array_completely_full_dynamic" } else { "tick_array_completely_full_fixed" });
+                                    break;
+                                }
+                            }
+                        }
+                    }
+                }
+            }
             for io in &o.ix_outcomes {
                 fnv(&mut res.log_hash, &io.code.to_le_bytes());
                 if o.ok {
